@@ -75,7 +75,7 @@ func checkGRPC(c GRPCCase, o *vf.Obs) error {
 		case "code":
 			r.Code = codes.Code(b.Code)
 		case "stall":
-			r.DelayMs = 800
+			r.DelayMs = 1500
 		case "huge":
 			r.Items = big
 		}
@@ -84,7 +84,7 @@ func checkGRPC(c GRPCCase, o *vf.Obs) error {
 	out := pand.TempName("c19g", ".phout")
 	defer pand.Remove(out)
 	var ammo map[string]any
-	gun := map[string]any{"target": tg.Addr(), "timeout": "200ms"}
+	gun := map[string]any{"target": tg.Addr(), "timeout": "400ms"}
 	n := len(c.Behs)
 	if !c.Scenario {
 		var sb strings.Builder
